@@ -491,6 +491,25 @@ def c04_work(item, ctx):
     sim = S.Sim(exe, world.cfg)
     run = Runner(res, sim, world, "C04")
     try:
+        if kind == "nodeid":
+            # the node id is changed by the application between CONodeInit and CONodeStart (CONmtSetNodeId): the server answers on the
+            # response identifier of the NEW id to requests on the request identifier of the new id, and to nothing else
+            old_id = world.nid
+            new_id = rng.choice([x for x in (1, 2, 17, 64, 126, 127) if x != old_id])
+            sim.cmd("restart")
+            sim.cmd("setnodeid %d" % new_id)
+            sim.cmd("start")
+            rd = bytes([0x40, 0x00, 0x10, 0x00, 0, 0, 0, 0])
+            for rid, want in ((0x600 + new_id, [0x580 + new_id]), (0x600 + old_id, [])):
+                evs = sim.rx(rid, rd)
+                got = [cid for (t, cid, dlc, d, f) in S.txs(evs)]
+                res.evals += 1
+                if got != want:
+                    res.violation("c04/count/node-id-changed", "node id changed from %d to %d before the start: request on %x answered on %r, reference %r" % (
+                        old_id, new_id, rid, ["%x" % c for c in got], ["%x" % c for c in want]), sim=sim)
+                    return res
+            res.nt("nodeid", old_id, new_id)
+            return res
         if kind == "index":
             _, lo, hi, subs = item
             c04_sweep_indices(res, run, world, lo, hi, subs)
@@ -655,6 +674,7 @@ def configure(m, prop):
                 for c0 in range(0, 256, 32 if q else 16):
                     items.append(("sweep", st, c0, 32 if q else 16))
             items += [("toggle", i, 30 if q else 200) for i in range(8 if q else 32)]
+            items += [("nodeid", i, 0) for i in range(4)]
             return items
         m.plan = plan
 
